@@ -597,8 +597,8 @@ class AsyncClient(base_client.BaseClient):
                 await self._trigger_event('disconnect', n, reason)
                 if not will_reconnect:
                     await self._trigger_event('__disconnect_final', n)
-            self.namespaces = {}
             self.connected = False
+        self.namespaces = {}
         self.callbacks = {}
         self._binary_packet = None
         self.sid = None
